@@ -1,7 +1,62 @@
-import Driver.Util
-/- Sub-protocol `C12`: not built yet. -/
+import Driver.C11
+/-
+Sub-protocol `C12`: command histories (play / stop / rewind / advance) against the tape model and the
+cassette-deck spec. Same requests as `C11`; every answer to `cmd` and `run` additionally carries the
+deck's view after ` D `:
+  tape <hex|->            -> ok <blocks> <tail>
+  cmd play|stop|rewind    -> ok
+  run <kind> <seed> <n>   -> <model part as in C11> D <playing 0|1> <stop time|-> E <time:level> …
+                             (or `D undecided` when the image has an empty block or a truncated tail)
+-/
 namespace Driver.C12
+open ZxVerif.Tape Driver.C11
 
-def proto : Driver.Proto := { σ := Unit, init := (), handle := fun s _ => (s, "unimplemented") }
+structure St where
+  base : Driver.C11.St := {}
+  deck : Spec.Deck := Spec.Deck.init []
+  decided : Bool := true
+  deckStop : Option Nat := none
+
+structure DeckRun where
+  deck : Spec.Deck
+  now : Nat
+  edges : List Edge
+  stopTime : Option Nat
+
+def driveDeck (kind seed : Nat) : Nat → Nat → Rng → Spec.Deck → Nat → List Edge → Option Nat → DeckRun
+  | 0, _, _, d, now, edges, st => { deck := d, now, edges, stopTime := st }
+  | n + 1, i, rng, d, now, edges, st =>
+    let (c, rng) := nextStep kind seed i rng
+    let d' := d.advance c
+    let now := now + c
+    let edges := if d'.level != d.level then ⟨now, d'.level⟩ :: edges else edges
+    let st := if d.playing && !d'.playing && st.isNone then some now else st
+    driveDeck kind seed n (i + 1) rng d' now edges st
+
+def handle (s : St) : List String → St × String
+  | ["tape", h] =>
+    let (b, out) := Driver.C11.handle s.base ["tape", h]
+    let decided := b.tailLen < 2 && !(b.blocks.any (·.isEmpty))
+    ({ base := b, deck := Spec.Deck.init b.blocks, decided := decided, deckStop := none }, out)
+  | ["cmd", c] =>
+    let (b, out) := Driver.C11.handle s.base ["cmd", c]
+    let d := match c with
+      | "play" => s.deck.cmd .play
+      | "stop" => s.deck.cmd .stop
+      | "rewind" => s.deck.cmd .rewind
+      | _ => s.deck
+    ({ s with base := b, deck := d }, out)
+  | ["run", kind, seed, n] =>
+    let now0 := s.base.now
+    let (b, out) := Driver.C11.handle s.base ["run", kind, seed, n]
+    if !s.decided then ({ s with base := b }, out ++ " D undecided") else
+    let seedN := hexNatD seed
+    let r := driveDeck (hexNatD kind) seedN (hexNatD n) 0 (Rng.new (UInt64.ofNat seedN)) s.deck now0 [] s.deckStop
+    let stopStr := match r.stopTime with | some t => (Nat.toDigits 16 t).asString | none => "-"
+    ({ s with base := b, deck := r.deck, deckStop := r.stopTime },
+      out ++ s!" D {bit r.deck.playing} {stopStr} E" ++ String.join (r.edges.reverse.map fun e => " " ++ edgeStr e))
+  | req => let (b, out) := Driver.C11.handle s.base req; ({ s with base := b }, out)
+
+def proto : Driver.Proto := { σ := St, init := {}, handle := handle }
 
 end Driver.C12
